@@ -101,12 +101,19 @@ structure BSt where
   vars : Nat → List Nat
   out : List (List Nat) := []
   completed : Bool := false
+  /-- exception classes passed to `observer.on_error`, in order -/
+  errs : List Err := []
 
 abbrev BM := ExceptT Err (StateM BSt)
 namespace BM
 def getVar (k : Nat) : BM (List Nat) := do return (← get).vars k
 def setVar (k : Nat) (v : List Nat) : BM Unit := modify fun s => { s with vars := fun j => if j = k then v else s.vars j }
 def emit (v : List Nat) : BM Unit := modify fun s => { s with out := s.out ++ [v] }
+/-- `observer.on_error(E(...))`: recorded; the closure goes on (nothing returns or raises there) -/
+def onError (e : Err) : BM Unit := modify fun s => { s with errs := s.errs ++ [e] }
+/-- `n.to_bytes(p, byteorder=…)`: `OverflowError` when `n` does not fit in `p` bytes -/
+def toBytes (big : Bool) (p n : Nat) : BM (List Nat) :=
+  if n < 256 ^ p then pure (Rx.toBytes big p n) else throw "OverflowError"
 def run {α} (m : BM α) (s : BSt) : Except Err α × BSt := (ExceptT.run m).run s
 end BM
 
